@@ -1,15 +1,16 @@
 #!/bin/bash
-# usage: lib/benign_lanes.sh [lanes] [name pattern]
-# Runs every property-preserving change under benign/ (lib/run_benign.sh: all 18 quick checks against a scratch copy of
-# /repo with the patch) in parallel lanes; logs in benign/logs/<name>.log, summary on stdout.
+# usage: lib/benign_lanes.sh [lanes] [plan file]
+# Runs property-preserving changes under benign/ through lib/run_benign.sh in parallel lanes.  Plan file: one line per
+# change, "<name> [check id ...]" (no ids = all 18 quick checks); default plan: every change, all checks.
+# Logs in benign/logs/<name>.log, summary on stdout.
 cd /verif
-lanes=${1:-6}; pat=${2:-.}
+lanes=${1:-6}; plan=${2:-}
 mkdir -p benign/logs
-ls -d benign/*-b*/ | xargs -n1 basename | grep -E "$pat" > /tmp/benign-all.txt
-split -n r/$lanes /tmp/benign-all.txt /tmp/benign-part.
+if [ -z "$plan" ]; then plan=/tmp/benign-plan-all.txt; ls -d benign/*-b*/ | xargs -n1 basename > $plan; fi
+split -n r/$lanes $plan /tmp/benign-part.
 for f in /tmp/benign-part.*; do
-  ( while read n; do lib/run_benign.sh $n benign/$n/patch.diff > benign/logs/$n.log 2>&1; done < $f ) &
+  ( while read n checks; do lib/run_benign.sh $n benign/$n/patch.diff $checks > benign/logs/$n.log 2>&1; done < $f ) &
 done
 wait
-rm -f /tmp/benign-part.* /tmp/benign-all.txt
+rm -f /tmp/benign-part.*
 grep -h "ALARMS:\|BASELINE\|does not apply" benign/logs/*.log | sort
